@@ -476,3 +476,67 @@ OVERLAP_TABLE: dict[str, list[tuple]] = {
            "P:graph.nodes),P:graph)", "1")], [], ""),
     ],
 }
+
+
+# ---- the main loop of the walk (create_puml_graph_from_node_class_graph);
+# ---- loop state is described by its value on loop entry: CUR = the node
+# ---- the walk stands on, PREV_P = the diagram node drawn last
+_HEAD = "list(topological_sort(P:node_class_graph))[0]"
+_FIRST = f"PUMLGraph().create_event_node({_HEAD}.event_type,{_HEAD}." \
+         f"get_puml_event_types(),parent_graph_node={_HEAD}.uid)"
+MAIN_ABBR = [(f"state({_FIRST})", "PREV_P"), (f"state({_HEAD})", "CUR"),
+             (_FIRST, "FIRST_P"), (_HEAD, "HEAD"),
+             ("phi(None|CUR.outgoing[0])", "NEXT"), ("PUMLGraph()", "G"),
+             ("[][USub(1)]", "LL[-1]")]
+_H0 = ("cmp", "HEAD.event_type", "Is", "None", "0")
+_EVENT = [("truth", "CUR.outgoing_logic", "0"),
+          ("cmp", "CUR.event_type", "Is", "None", "0")]
+_LOGIC = ("any", (("cmp", "CUR.event_type", "Is", "None", "1"),
+                  ("truth", "CUR.outgoing_logic", "1")), "1")
+_GO_ON = ("any", (("cmp", "NEXT", "Is", "None", "0"),
+                  ("truth", "[]", "1")), "1")
+_IN_BLOCK = ("truth", "[]", "1")
+_END = ("cmp", "NEXT", "Is", "None", "1")
+_MORE = ("cmp", "NEXT", "Is", "None", "0")
+_NOT_BRK = ("cmp", "PUMLEvent.BREAK", "In", "CUR.get_puml_event_types()", "0")
+MAIN_TABLE = [
+    ("the walk starts at the first node in topological order, drawn as "
+     "the first diagram node", "call", "create_event_node", "G",
+     ("HEAD.event_type", "HEAD.get_puml_event_types()",
+      "parent_graph_node=HEAD.uid"), [_H0], []),
+    ("it ends exactly when no block is open and the event has no successor",
+     "ret", "", "", ("G",),
+     _EVENT + [("truth", "[]", "0"), _END], [_H0]),
+    ("a plain successor is drawn behind the current diagram node", "call",
+     "update_puml_graph_with_event_node", "",
+     ("G", "NEXT", "PREV_P"), _EVENT + [_MORE], [_H0, _GO_ON]),
+    ("a logic node (or an event with outgoing logic) opens a block", "call",
+     "handle_logic_node_cases", "", ("G", "[]", "PREV_P", "CUR"), [_LOGIC],
+     [_H0]),
+    ("inside a block a path that ends gets a kill node - unless its last "
+     "event is a break point", "call", "create_kill_node", "G", (),
+     _EVENT + [_IN_BLOCK, _END, _NOT_BRK], [_H0, _GO_ON]),
+    ("connected behind the last diagram node of the path", "call",
+     "add_puml_edge", "G", ("PREV_P", "G.create_kill_node()"),
+     _EVENT + [_IN_BLOCK, _END, _NOT_BRK], [_H0, _GO_ON]),
+    ("and the path is closed at the block's merge point", "call",
+     "handle_reach_logic_merge_point", "",
+     ("G", "[]", "phi(G.create_kill_node()|PREV_P)", "CUR"),
+     _EVENT + [_IN_BLOCK, _END], [_H0, _GO_ON]),
+    ("inside a block a successor that is a merge node of the block is "
+     "handled as a potential merge point", "call",
+     "handle_reach_potential_merge_point", "",
+     ("G", "[]", "PREV_P", "CUR", "NEXT"),
+     _EVENT + [_IN_BLOCK, _MORE,
+               ("truth", "check_is_merge_node_for_logic_block(NEXT,LL[-1],"
+                "P:node_class_graph)", "1")], [_H0, _GO_ON]),
+    ("on the lonely-merge path of a block a following logic node is a "
+     "potential merge point", "call", "handle_reach_potential_merge_point",
+     "", ("G", "[]", "PREV_P", "CUR", "CUR.outgoing_logic[0]"),
+     [_LOGIC, _IN_BLOCK,
+      ("truth", "LL[-1].is_on_lonely_merge_path()", "1")], [_H0]),
+]
+MAIN_NAMES = {"handle_reach_logic_merge_point",
+              "handle_reach_potential_merge_point",
+              "update_puml_graph_with_event_node", "handle_logic_node_cases",
+              "create_kill_node", "add_puml_edge", "create_event_node"}
